@@ -107,4 +107,40 @@ def feedAll (cfg : Cfg) : Nat → Str → List Str → List Ev × Nat × Str
     let r2 := feedAll cfg r.2.1 r.2.2 segs
     (r.1 ++ r2.1, r2.2)
 
+/-! ### sessions -/
+
+/-- the session slots an op may change: its own slot, and for a loop pass exactly the slots whose
+CURRENT session (slot, generation = the session token) has an exit task queued -/
+def touches (w : World) : Op → Nat → Bool
+  | .openS _, j => j == w.cur
+  | .recv _, j => j == w.cur
+  | .opt _, j => j == w.cur
+  | .close, j => j == w.cur
+  | .xconn k, j => j == k
+  | .xrecv k _, j => j == k
+  | .xdisc k, j => j == k
+  | .pass, j => w.exits.contains (j, (w.slot j).gen)
+  | .sstart, j => j == 7 || w.exits.contains (j, (w.slot j).gen)
+  | .srecv _, j => j == 7 || w.exits.contains (j, (w.slot j).gen)
+  | .sstop, j => j == 7 || w.exits.contains (j, (w.slot j).gen)
+  | .teardown, _ => true
+  | _, _ => false
+
+/-! ### SplitCmdline -/
+
+/-- the quote (if any) still open after `s`, starting inside `q` -/
+def openQuote : Option UInt8 → Str → Option UInt8
+  | q, [] => q
+  | none, c :: cs => if isQuote c then openQuote (some c) cs else openQuote none cs
+  | some q, c :: cs => if c = q then openQuote none cs else openQuote (some q) cs
+
+/-- neither blank nor quote -/
+def plainChar (c : UInt8) : Bool := !isBlank c && !isQuote c
+
+/-- arguments joined by single spaces -/
+def joinSp : List Str → Str
+  | [] => []
+  | [a] => a
+  | a :: b :: r => a ++ 32 :: joinSp (b :: r)
+
 end Tbox.C13
